@@ -1323,5 +1323,457 @@ theorem built_inv (cpKid : Tok → Nat) {d : CDD} {h : List Entry} (hb : Built c
         | some _ => rw [hq] at hd'; cases hd'
       exact inv.absent key hdk e' he'
 
+/-! ## token lines: `package_use_splitter`, `domain.pkg_use` -/
+
+theorem isSection_dashStar : isSection dashStar = false := by decide
+
+theorem restOfPart_section {t : Tok} {ts : List Tok} (h : isSection t = true) : restOfPart (t :: ts) = [] := by
+  simp [restOfPart, h]
+
+theorem restOfPart_plain {t : Tok} {ts : List Tok} (h : isSection t = false) :
+    restOfPart (t :: ts) = t :: restOfPart ts := by
+  simp [restOfPart, h]
+
+/-- the inner loop against the look-ahead specification: the buffer survives iff no `-*` follows in this section -/
+theorem secLoop_spec (valid : Tok → Bool) : ∀ (ts : List Tok) (ue : Tok) (buf out : List Tok),
+    secLoop valid ts ue buf = some out →
+    out = (if (restOfPart ts).contains dashStar then [] else buf) ++ splitSpecFrom (some ue) ts
+  | [], ue, buf, out, h => by
+    simp only [secLoop, Option.some.injEq] at h
+    simp [restOfPart, splitSpecFrom, h]
+  | t :: ts, ue, buf, out, h => by
+    unfold secLoop at h
+    by_cases hs : isSection t = true
+    · simp only [hs, if_true, Option.map_eq_some_iff] at h
+      obtain ⟨o, ho, rfl⟩ := h
+      have ih := secLoop_spec valid ts (sectionName t) [] o ho
+      rw [restOfPart_section hs]
+      simp only [splitSpecFrom, hs, if_true]
+      rw [ih]; simp
+    · have hs' : isSection t = false := by simpa using hs
+      by_cases hd : t = dashStar
+      · subst hd
+        simp only [isSection_dashStar, Bool.false_eq_true, if_false, if_true, Option.map_eq_some_iff] at h
+        obtain ⟨o, ho, rfl⟩ := h
+        have ih := secLoop_spec valid ts ue [] o ho
+        rw [restOfPart_plain isSection_dashStar]
+        simp only [splitSpecFrom, isSection_dashStar, Bool.false_eq_true, if_false]
+        rw [ih]; simp
+      · simp only [hs', Bool.false_eq_true, if_false, hd] at h
+        by_cases hv : valid (lstripDash (expandTok ue t)) = true
+        · simp only [hv, if_true] at h
+          have ih := secLoop_spec valid ts ue (buf ++ [expandTok ue t]) out h
+          rw [restOfPart_plain hs']
+          have hne : (dashStar == t) = false := by simpa using fun h' : dashStar = t => hd h'.symm
+          have hne' : (t != dashStar) = true := by simpa using hd
+          simp only [splitSpecFrom, hs', Bool.false_eq_true, if_false, List.contains_cons, hne, Bool.false_or, hne', Bool.true_and]
+          rw [ih]
+          by_cases hc : dashStar ∈ restOfPart ts
+          · simp [hc]
+          · simp [hc]
+        · simp [hv] at h
+
+/-- the outer loop: what has been seen of the plain head survives iff no `-*` follows in the plain head -/
+theorem plainLoop_spec (valid : Tok → Bool) : ∀ (ts pre out : List Tok),
+    plainLoop valid ts pre = some out →
+    out = (if (restOfPart ts).contains dashStar then [] else pre) ++ splitSpecFrom none ts
+  | [], pre, out, h => by
+    simp only [plainLoop, Option.some.injEq] at h
+    simp [restOfPart, splitSpecFrom, h]
+  | t :: ts, pre, out, h => by
+    unfold plainLoop at h
+    by_cases hd : t = dashStar
+    · subst hd
+      simp only [if_true] at h
+      have ih := plainLoop_spec valid ts [dashStar] out h
+      rw [restOfPart_plain isSection_dashStar]
+      simp only [splitSpecFrom, isSection_dashStar, Bool.false_eq_true, if_false]
+      rw [ih]
+      by_cases hc : dashStar ∈ restOfPart ts
+      · simp [hc]
+      · simp [hc]
+    · simp only [hd, if_false] at h
+      by_cases hs : isSection t = true
+      · simp only [hs, if_true, Option.map_eq_some_iff] at h
+        obtain ⟨o, ho, rfl⟩ := h
+        have ih := secLoop_spec valid ts (sectionName t) [] o ho
+        rw [restOfPart_section hs]
+        simp only [splitSpecFrom, hs, if_true]
+        rw [ih]; simp
+      · have hs' : isSection t = false := by simpa using hs
+        simp only [hs', Bool.false_eq_true, if_false] at h
+        by_cases hv : valid (lstripDash t) = true
+        · simp only [hv, if_true] at h
+          have ih := plainLoop_spec valid ts (pre ++ [t]) out h
+          rw [restOfPart_plain hs']
+          have hne : (dashStar == t) = false := by simpa using fun h' : dashStar = t => hd h'.symm
+          simp only [splitSpecFrom, hs', Bool.false_eq_true, if_false, List.contains_cons, hne, Bool.false_or]
+          rw [ih]
+          by_cases hc : dashStar ∈ restOfPart ts
+          · simp [hc]
+          · simp [hc]
+        · simp [hv] at h
+
+/-- acceptance: the loops fail exactly on an invalid (long form) token -/
+theorem secLoop_isSome (valid : Tok → Bool) : ∀ (ts : List Tok) (ue : Tok) (buf : List Tok),
+    (secLoop valid ts ue buf).isSome = (checkedFrom (some ue) ts).all fun t => valid (lstripDash t)
+  | [], ue, buf => by simp [secLoop, checkedFrom]
+  | t :: ts, ue, buf => by
+    unfold secLoop
+    by_cases hs : isSection t = true
+    · simp only [hs, if_true, Option.isSome_map, checkedFrom]
+      exact secLoop_isSome valid ts _ _
+    · have hs' : isSection t = false := by simpa using hs
+      by_cases hd : t = dashStar
+      · subst hd
+        simp only [isSection_dashStar, Bool.false_eq_true, if_false, if_true, Option.isSome_map, checkedFrom]
+        exact secLoop_isSome valid ts _ _
+      · simp only [hs', Bool.false_eq_true, if_false, hd, checkedFrom, List.all_cons]
+        by_cases hv : valid (lstripDash (expandTok ue t)) = true
+        · simp only [hv, if_true, Bool.true_and]
+          exact secLoop_isSome valid ts _ _
+        · simp [hv]
+
+theorem plainLoop_isSome (valid : Tok → Bool) : ∀ (ts pre : List Tok),
+    (plainLoop valid ts pre).isSome = (checkedFrom none ts).all fun t => valid (lstripDash t)
+  | [], pre => by simp [plainLoop, checkedFrom]
+  | t :: ts, pre => by
+    unfold plainLoop
+    by_cases hd : t = dashStar
+    · subst hd
+      simp only [if_true, checkedFrom, isSection_dashStar, Bool.false_eq_true, if_false]
+      exact plainLoop_isSome valid ts _
+    · simp only [hd, if_false]
+      by_cases hs : isSection t = true
+      · simp only [hs, if_true, Option.isSome_map, checkedFrom]
+        exact secLoop_isSome valid ts _ _
+      · have hs' : isSection t = false := by simpa using hs
+        simp only [hs', Bool.false_eq_true, if_false, checkedFrom, hd, List.all_cons]
+        by_cases hv : valid (lstripDash t) = true
+        · simp only [hv, if_true, Bool.true_and]
+          exact plainLoop_isSome valid ts _
+        · simp [hv]
+
+/-- nothing is invented, duplicated or reordered -/
+theorem splitSpecFrom_sublist : ∀ (toks : List Tok) (cur : Option Tok),
+    (splitSpecFrom cur toks).Sublist (rewriteFrom cur toks)
+  | [], cur => by simp [splitSpecFrom, rewriteFrom]
+  | t :: ts, cur => by
+    unfold splitSpecFrom rewriteFrom
+    by_cases hs : isSection t = true
+    · simp only [hs, if_true]; exact splitSpecFrom_sublist ts _
+    · have hs' : isSection t = false := by simpa using hs
+      simp only [hs', Bool.false_eq_true, if_false]
+      cases cur with
+      | none =>
+        simp only
+        split
+        · exact (splitSpecFrom_sublist ts none).cons _
+        · exact (splitSpecFrom_sublist ts none).cons_cons _
+      | some ue =>
+        simp only
+        split
+        · exact (splitSpecFrom_sublist ts (some ue)).cons _
+        · exact (splitSpecFrom_sublist ts (some ue)).cons_cons _
+
+/-! ### the meaning of a token line -/
+
+theorem lastTok_cons (t : Tok) (ts : List Tok) (x : Tok) :
+    lastTok (t :: ts) x = (lastTok ts x).orElse fun _ => verdict (tokChunk t) x := by
+  simp [lastTok, lastV]
+
+theorem covers_single_star (x : Tok) : covers [star] x = true := by simp [covers]
+
+theorem verdict_dashStar (x : Tok) : verdict (tokChunk dashStar) x = some false := by
+  have : tokChunk dashStar = ⟨0, true, [star], []⟩ := by decide
+  simp [this, verdict, covers_single_star]
+
+theorem endsUS_append (ue : Tok) : endsUS (ue ++ ['_', '*']) = true := by
+  simp [endsUS]
+
+theorem verdict_prefixClear (ue x : Tok) (hp : (ue ++ ['_']).isPrefixOf x = true) :
+    verdict (tokChunk (expandTok ue dashStar)) x = some false := by
+  have h1 : expandTok ue dashStar = '-' :: (ue ++ ['_', '*']) := by simp [expandTok, dashStar]
+  have h2 : tokChunk ('-' :: (ue ++ ['_', '*'])) = ⟨0, true, [ue ++ ['_', '*']], []⟩ := by simp [tokChunk]
+  have h3 : (ue ++ ['_', '*']).dropLast = ue ++ ['_'] := by
+    rw [List.dropLast_append_of_ne_nil (by simp)]; rfl
+  rw [h1, h2]
+  simp [verdict, covers, endsUS_append, h3, hp]
+
+/-- a later `-*` speaks about every flag -/
+theorem lastTok_isSome_of_clear : ∀ (toks : List Tok) (x : Tok), dashStar ∈ toks → (lastTok toks x).isSome = true
+  | [], _, h => by simp at h
+  | t :: ts, x, h => by
+    rw [lastTok_cons]
+    rcases List.mem_cons.mp h with h | h
+    · subst h
+      rw [verdict_dashStar]
+      cases lastTok ts x <;> simp
+    · have := lastTok_isSome_of_clear ts x h
+      cases hl : lastTok ts x with
+      | none => rw [hl] at this; simp at this
+      | some b => simp
+
+/-- a later `-name_*` speaks about every flag `name_…` -/
+theorem lastTok_isSome_of_prefixClear (ue : Tok) : ∀ (toks : List Tok) (x : Tok), expandTok ue dashStar ∈ toks →
+    (ue ++ ['_']).isPrefixOf x = true → (lastTok toks x).isSome = true
+  | [], _, h, _ => by simp at h
+  | t :: ts, x, h, hp => by
+    rw [lastTok_cons]
+    rcases List.mem_cons.mp h with h | h
+    · rw [← h, verdict_prefixClear ue x hp]
+      cases lastTok ts x <;> simp
+    · have := lastTok_isSome_of_prefixClear ue ts x h hp
+      cases hl : lastTok ts x with
+      | none => rw [hl] at this; simp at this
+      | some b => simp
+
+theorem clear_mem_rewrite_plain : ∀ (ts : List Tok), dashStar ∈ restOfPart ts → dashStar ∈ rewriteFrom none ts
+  | [], h => by simp [restOfPart] at h
+  | t :: ts, h => by
+    by_cases hs : isSection t = true
+    · rw [restOfPart_section hs] at h; simp at h
+    · have hs' : isSection t = false := by simpa using hs
+      rw [restOfPart_plain hs'] at h
+      simp only [rewriteFrom, hs', Bool.false_eq_true, if_false]
+      rcases List.mem_cons.mp h with h | h
+      · exact h ▸ List.mem_cons_self
+      · exact List.mem_cons_of_mem _ (clear_mem_rewrite_plain ts h)
+
+theorem clear_mem_rewrite_section (ue : Tok) : ∀ (ts : List Tok), dashStar ∈ restOfPart ts →
+    expandTok ue dashStar ∈ rewriteFrom (some ue) ts
+  | [], h => by simp [restOfPart] at h
+  | t :: ts, h => by
+    by_cases hs : isSection t = true
+    · rw [restOfPart_section hs] at h; simp at h
+    · have hs' : isSection t = false := by simpa using hs
+      rw [restOfPart_plain hs'] at h
+      simp only [rewriteFrom, hs', Bool.false_eq_true, if_false]
+      rcases List.mem_cons.mp h with h | h
+      · exact h ▸ List.mem_cons_self
+      · exact List.mem_cons_of_mem _ (clear_mem_rewrite_section ue ts h)
+
+/-- a value of the section `name` only speaks about flags `name_…` (the name not starting with `-`) -/
+theorem verdict_expandTok_prefix (ue t x : Tok) (hue : ue.head? ≠ some '-')
+    (h : verdict (tokChunk (expandTok ue t)) x ≠ none) : (ue ++ ['_']).isPrefixOf x = true := by
+  rw [List.isPrefixOf_iff_prefix]
+  by_cases ht : t.head? = some '-'
+  · have h1 : tokChunk (expandTok ue t) = ⟨0, true, [ue ++ '_' :: t.tail], []⟩ := by simp [expandTok, ht, tokChunk]
+    rw [h1] at h
+    have hc : covers [ue ++ '_' :: t.tail] x = true := by
+      cases hcv : covers [ue ++ '_' :: t.tail] x with
+      | true => rfl
+      | false => simp [verdict, hcv] at h
+    rcases (covers_iff _ x).mp hc with h' | ⟨n, hn, he, hpre⟩ | h'
+    · exfalso
+      have : star = ue ++ '_' :: t.tail := by simpa using h'
+      cases ue with
+      | nil => simp [star] at this
+      | cons a as =>
+        have := congrArg List.length this
+        simp [star] at this
+    · have hn' : n = ue ++ '_' :: t.tail := by simpa using hn
+      subst hn'
+      rw [List.isPrefixOf_iff_prefix] at hpre
+      refine List.IsPrefix.trans ?_ hpre
+      cases htl : t.tail with
+      | nil =>
+        exfalso
+        rw [htl] at he
+        simp [endsUS, List.isSuffixOf, List.reverse_append] at he
+      | cons b bs =>
+        have : (ue ++ '_' :: b :: bs).dropLast = (ue ++ ['_']) ++ (b :: bs).dropLast := by
+          rw [show ue ++ '_' :: b :: bs = (ue ++ ['_']) ++ (b :: bs) by simp]
+          rw [List.dropLast_append_of_ne_nil (by simp)]
+        rw [this]
+        exact List.prefix_append _ _
+    · have : x = ue ++ '_' :: t.tail := by simpa using h'
+      rw [this, show ue ++ '_' :: t.tail = (ue ++ ['_']) ++ t.tail by simp]
+      exact List.prefix_append _ _
+  · have hh : (ue ++ '_' :: t).head? ≠ some '-' := by
+      cases ue with
+      | nil => simp
+      | cons a as => simpa using hue
+    have h1 : tokChunk (expandTok ue t) = ⟨0, true, [], [ue ++ '_' :: t]⟩ := by
+      have : expandTok ue t = ue ++ '_' :: t := by simp [expandTok, ht]
+      rw [this]; unfold tokChunk; rw [if_neg hh]
+    rw [h1] at h
+    have : x = ue ++ '_' :: t := by
+      by_cases hx : x = ue ++ '_' :: t
+      · exact hx
+      · exfalso; apply h; simp [verdict, covers, hx]
+    rw [this, show ue ++ '_' :: t = (ue ++ ['_']) ++ t by simp]
+    exact List.prefix_append _ _
+
+/-- what the splitter drops is overridden anyway: per flag, the last token speaking about it is the same -/
+theorem lastTok_splitSpecFrom : ∀ (toks : List Tok) (cur : Option Tok) (x : Tok),
+    (∀ ue, cur = some ue → ue.head? ≠ some '-') → plainNames toks = true →
+    lastTok (splitSpecFrom cur toks) x = lastTok (rewriteFrom cur toks) x
+  | [], cur, x, _, _ => by simp [splitSpecFrom, rewriteFrom]
+  | t :: ts, cur, x, hcur, hn => by
+    have hn' : plainNames ts = true := by
+      simp only [plainNames, List.all_cons, Bool.and_eq_true] at hn ⊢; exact hn.2
+    unfold splitSpecFrom rewriteFrom
+    by_cases hs : isSection t = true
+    · simp only [hs, if_true]
+      refine lastTok_splitSpecFrom ts _ x ?_ hn'
+      intro ue hue
+      simp only [plainNames, List.all_cons, Bool.and_eq_true, hs, Bool.not_true, Bool.false_or] at hn
+      have := hn.1
+      simp only [Option.some.injEq] at hue
+      subst hue
+      simpa using this
+    · have hs' : isSection t = false := by simpa using hs
+      simp only [hs', Bool.false_eq_true, if_false]
+      cases cur with
+      | none =>
+        simp only
+        have ih := lastTok_splitSpecFrom ts none x (by simp) hn'
+        split
+        · rename_i hc
+          rw [lastTok_cons, ← ih]
+          have hsome := lastTok_isSome_of_clear _ x (clear_mem_rewrite_plain ts (by simpa using hc))
+          rw [← ih] at hsome
+          cases hl : lastTok (splitSpecFrom none ts) x with
+          | none => rw [hl] at hsome; simp at hsome
+          | some b => simp
+        · rw [lastTok_cons, lastTok_cons, ih]
+      | some ue =>
+        simp only
+        have hue : ue.head? ≠ some '-' := hcur ue rfl
+        have ih := lastTok_splitSpecFrom ts (some ue) x hcur hn'
+        split
+        · rename_i hc
+          rw [lastTok_cons, ← ih]
+          simp only [Bool.and_eq_true] at hc
+          cases hv : verdict (tokChunk (expandTok ue t)) x with
+          | none => cases lastTok (splitSpecFrom (some ue) ts) x <;> simp
+          | some b =>
+            have hp := verdict_expandTok_prefix ue t x hue (by rw [hv]; simp)
+            have hsome := lastTok_isSome_of_prefixClear ue _ x (clear_mem_rewrite_section ue ts (by simpa using hc.2)) hp
+            rw [← ih] at hsome
+            cases hl : lastTok (splitSpecFrom (some ue) ts) x with
+            | none => rw [hl] at hsome; simp at hsome
+            | some b' => simp
+        · rw [lastTok_cons, lastTok_cons, ih]
+
+/-! ### one line as one chunk -/
+
+def isNegTok (t : Tok) : Bool := t.head? == some '-'
+def negsOf (toks : List Tok) : List Tok := (toks.filter isNegTok).map List.tail
+def possOf (toks : List Tok) : List Tok := toks.filter fun t => !isNegTok t
+
+/-- what a line says about `x` when read as (negatives, positives) -/
+def vLine (toks : List Tok) (x : Tok) : Option Bool :=
+  if (possOf toks).contains x then some true else if covers (negsOf toks) x then some false else none
+
+theorem mem_stableUniqueAux : ∀ (ts seen : List Tok) (x : Tok),
+    x ∈ stableUniqueAux ts seen ↔ x ∈ ts ∧ x ∉ seen
+  | [], seen, x => by simp [stableUniqueAux]
+  | t :: ts, seen, x => by
+    unfold stableUniqueAux
+    by_cases h : seen.contains t = true
+    · have ht : t ∈ seen := by simpa using h
+      simp only [h, if_true, mem_stableUniqueAux ts seen x, List.mem_cons]
+      constructor
+      · rintro ⟨h1, h2⟩; exact ⟨Or.inr h1, h2⟩
+      · rintro ⟨h1 | h1, h2⟩
+        · exact absurd (h1 ▸ ht) h2
+        · exact ⟨h1, h2⟩
+    · have ht : t ∉ seen := by simpa using h
+      have h' : seen.contains t = false := by simpa using h
+      simp only [h', Bool.false_eq_true, if_false, List.mem_cons, mem_stableUniqueAux ts (t :: seen) x, not_or]
+      constructor
+      · rintro (h1 | ⟨h1, h2, h3⟩)
+        · exact ⟨Or.inl h1, h1 ▸ ht⟩
+        · exact ⟨Or.inr h1, h3⟩
+      · rintro ⟨h1 | h1, h2⟩
+        · exact Or.inl h1
+        · by_cases hx : x = t
+          · exact Or.inl hx
+          · exact Or.inr ⟨h1, hx, h2⟩
+
+theorem mem_stableUnique (ts : List Tok) (x : Tok) : x ∈ stableUnique ts ↔ x ∈ ts := by
+  simp [stableUnique, mem_stableUniqueAux]
+
+theorem covers_congr (a b : List Tok) (h : ∀ n, n ∈ a ↔ n ∈ b) (x : Tok) : covers a x = covers b x := by
+  rw [Bool.eq_iff_iff, covers_iff, covers_iff]
+  simp only [h]
+
+theorem covers_cons (n : Tok) (ns : List Tok) (x : Tok) : covers (n :: ns) x = (covers [n] x || covers ns x) := by
+  simp only [covers, List.contains_cons, List.any_cons, List.contains_nil, List.any_nil, Bool.or_false]
+  ac_rfl
+
+theorem covers_nil (x : Tok) : covers [] x = false := by simp [covers]
+
+theorem verdict_lineChunk (kid : Nat) (simple : Bool) (toks : List Tok) (x : Tok) :
+    verdict (lineChunk kid simple toks) x = vLine toks x := by
+  have hp : (lineChunk kid simple toks).pos.contains x = (possOf toks).contains x := by
+    rw [Bool.eq_iff_iff]
+    simp [lineChunk, possOf, isNegTok, mem_stableUnique]
+  have hc : covers (lineChunk kid simple toks).neg x = covers (negsOf toks) x := by
+    apply covers_congr
+    intro n
+    simp [lineChunk, negsOf, isNegTok, mem_stableUnique]
+  simp only [verdict, vLine, hp, hc]
+
+theorem covers_negsOf : ∀ (ts : List Tok) (x : Tok),
+    covers (negsOf ts) x = ts.any fun u => isNegTok u && covers [u.tail] x
+  | [], x => by simp [negsOf, covers_nil]
+  | t :: ts, x => by
+    have ih := covers_negsOf ts x
+    by_cases ht : isNegTok t = true
+    · have : negsOf (t :: ts) = t.tail :: negsOf ts := by simp [negsOf, ht]
+      rw [this, covers_cons, ih]; simp [ht]
+    · have : negsOf (t :: ts) = negsOf ts := by simp [negsOf, ht]
+      rw [this, ih]; simp [ht]
+
+/-- an order-free line read as one chunk says, about every flag, what its last token speaking about the flag says -/
+theorem lastTok_eq_vLine : ∀ (toks : List Tok) (x : Tok), orderFree toks = true → lastTok toks x = vLine toks x
+  | [], x, _ => by simp [lastTok, lastV, vLine, possOf, negsOf, covers_nil]
+  | t :: ts, x, h => by
+    simp only [orderFree, Bool.and_eq_true] at h
+    have ih := lastTok_eq_vLine ts x h.2
+    rw [lastTok_cons, ih]
+    by_cases ht : isNegTok t = true
+    · have ht' : t.head? = some '-' := by simpa [isNegTok] using ht
+      have h1 : tokChunk t = ⟨0, true, [t.tail], []⟩ := by simp [tokChunk, ht']
+      have hp : possOf (t :: ts) = possOf ts := by simp [possOf, ht]
+      have hn : negsOf (t :: ts) = t.tail :: negsOf ts := by simp [negsOf, ht]
+      simp only [vLine, hp, hn, h1, verdict]
+      rw [covers_cons t.tail (negsOf ts) x]
+      cases (possOf ts).contains x <;> cases covers (negsOf ts) x <;> cases covers [t.tail] x <;> simp
+    · have ht0 : isNegTok t = false := by simpa using ht
+      have ht' : ¬ t.head? = some '-' := by simpa [isNegTok] using ht
+      have h1 : tokChunk t = ⟨0, true, [], [t]⟩ := by simp [tokChunk, ht']
+      have hp : possOf (t :: ts) = t :: possOf ts := by simp [possOf, ht0]
+      have hn : negsOf (t :: ts) = negsOf ts := by simp [negsOf, ht0]
+      have hfree : covers (negsOf ts) t = false := by
+        rw [covers_negsOf]
+        have := h.1
+        simp only [isNegTok] at ht0
+        simpa [ht0, isNegTok] using this
+      simp only [vLine, hp, hn, h1, verdict, covers_nil, List.contains_cons]
+      by_cases hx : x = t
+      · subst hx
+        simp only [BEq.rfl, Bool.true_or, if_true, hfree]
+        cases (possOf ts).contains x <;> simp
+      · have : (x == t) = false := by simpa using hx
+        simp only [this, Bool.false_or, List.contains_nil, Bool.false_eq_true, if_false]
+        cases (possOf ts).contains x <;> cases covers (negsOf ts) x <;> simp
+
+/-! ### the rewriting, section by section -/
+
+/-- how a token reads in the part `cur` (`none` = before the first section) -/
+def inPart (cur : Option Tok) (t : Tok) : Tok := match cur with | none => t | some ue => expandTok ue t
+
+theorem rewriteFrom_append (cur : Option Tok) : ∀ (vals rest : List Tok), (vals.all fun t => !isSection t) = true →
+    rewriteFrom cur (vals ++ rest) = vals.map (inPart cur) ++ rewriteFrom cur rest
+  | [], rest, _ => by simp
+  | t :: ts, rest, h => by
+    simp only [List.all_cons, Bool.and_eq_true, Bool.not_eq_true'] at h
+    have ih := rewriteFrom_append cur ts rest (by simpa using h.2)
+    simp only [List.cons_append, rewriteFrom, h.1, Bool.false_eq_true, if_false, ih, List.map_cons, inPart]
+    cases cur <;> rfl
 
 end Pkgcore.C11
